@@ -241,6 +241,9 @@ def _meta_digest(m):
     return tuple(out)
 
 
+_LATER = [0]
+
+
 def apply_and_check(ctx, ds, name, args, kwargs, case, tags):
     """apply one filter to ds, check everything, return the result dataset (or None)"""
     data = snapshot_data(ds)
@@ -290,6 +293,29 @@ def apply_and_check(ctx, ds, name, args, kwargs, case, tags):
     rest_b = {k: v for k, v in cfg_before.items() if k not in ("applied_filters", "n_mazes")}
     rest_a = {k: v for k, v in got.items() if k not in ("applied_filters", "n_mazes")}
     ctx.check(rest_a == rest_b, f"{mech}/other-config-fields-changed", lambda: f"{rest_b} -> {rest_a}"[:500], c2)
+    # the result belongs to the caller: what the caller later does to it in place (collecting its generation metadata, writing it in
+    # a compact format - both empty the per-maze metadata of the RESULT's mazes) may not reach back into the input
+    _LATER[0] += 1
+    if _LATER[0] % 3 == 0 and len(out) and name != "collect_generation_meta":
+        try:
+            with warnings.catch_warnings():
+                warnings.simplefilter("ignore")
+                if _LATER[0] % 2:
+                    out.filter_by.collect_generation_meta()
+                else:
+                    out._serialize_minimal()
+            did = True
+        except Exception:  # noqa: BLE001
+            did = False
+            ctx.tally("c08:later-step-on-result-not-possible(not judged)")
+        if did:
+            ctx.tally("c08:input-rechecked-after-later-step-on-result")
+            ok2 = all(np.array_equal(m.connection_list, d["cl"]) and np.array_equal(m.solution, d["sol"]) for m, d in zip(ds.mazes, data))
+            ctx.check(ok2 and [id(m) for m in ds.mazes] == ids_before, f"{mech}/input-maze-content-changed", "after the result had its metadata collected / was serialized", c2)
+            ctx.check([_meta_digest(m) for m in ds.mazes] == meta_before and (ds.generation_metadata_collected is None) == collected_before,
+                      f"{mech}/input-generation-metadata-changed", lambda: f"after the RESULT had its metadata collected / was written in a compact format: per-maze generation_meta of the input present before: "
+                      f"{sum(d is not None for d in meta_before)}, after: {sum(_meta_digest(m) is not None for m in ds.mazes)}", c2)
+            ctx.check(cfg_fields(ds.cfg) == cfg_before, f"{mech}/input-config-changed", "after a later step on the result", c2)
     return out
 
 
@@ -345,6 +371,25 @@ def run(ctx):
                 ctx.check(len(af) == len(cfg_before["applied_filters"]) + 1 and af[-1]["name"] == f"__custom__:{pred.__name__}" and dict(af[-1]["kwargs"]) == kw,
                           "C08/custom_maze_filter/provenance-wrong", f"{af}", case)
                 ctx.check(out.cfg.n_mazes == len(out), "C08/custom_maze_filter/n_mazes-not-updated", "", case)
+                # a second and a third custom predicate on that result (the library may refuse the chained call - then only the
+                # undisturbed input is judged): whatever is returned records exactly the predicates applied to it, and the result
+                # it was derived from keeps its own record
+                rec_out = [dict(f) for f in out.cfg.applied_filters]
+                for pred2, kw2 in ((starts_top, {}), (is_long, dict(min_len=2))):
+                    try:
+                        with warnings.catch_warnings():
+                            warnings.simplefilter("ignore")
+                            out2 = out.custom_maze_filter(pred2, **kw2)
+                    except Exception:  # noqa: BLE001
+                        ctx.tally("c08:chained-custom-filter-refused(not judged)")
+                        out2 = None
+                    ctx.tally("c08:chained-custom-filter")
+                    now = [dict(f) for f in out.cfg.applied_filters]
+                    ctx.check([(f.get("name"), dict(f.get("kwargs", {}))) for f in now] == [(f.get("name"), dict(f.get("kwargs", {}))) for f in rec_out],
+                              "C08/custom_maze_filter/input-changed", lambda: f"a chained custom filter changed the record of the dataset it was applied to: {rec_out} -> {now}"[:500], case)
+                    if out2 is not None:
+                        names2 = [f.get("name") for f in out2.cfg.applied_filters]
+                        ctx.check(names2 == [f.get("name") for f in rec_out] + [f"__custom__:{pred2.__name__}"], "C08/custom_maze_filter/provenance-wrong", f"{names2}", case)
         # ---- sequences -------------------------------------------------------------
         ds = make_ds_j(items, g, key)
         cur = ds
